@@ -197,7 +197,9 @@ Muts == {"none", "flipBundle", "flipSig", "truncBundle", "truncSig", "signedByOt
          \* claimed invalid here; a missing not-after is the epoch, i.e. long expired)
          "appendField22", "appendUnknownField", "noNotAfter",
          \* key-type fields left at their zero value (unspecified) rather than set to a wrong type
-         "noCertType", "noEncType"}
+         "noCertType", "noEncType",
+         \* signed by the key the bundle names as the node's PREVIOUS certificate key instead of by its own
+         "signedByNamedPrev"}
 InWindow(v) == (v.nb + v.sknb <= 0) /\ (0 <= v.na + v.skna)
 ValidReq(v) == v.mut = "none" /\ InWindow(v)
 
@@ -288,7 +290,7 @@ Apply(st, o) ==
     [] o.op = "Fetch"       -> DoFetch(st, o)
     [] o.op = "FetchRace"   -> DoFetchRace(st, o)
     [] o.op = "Submit"      -> DoSubmit(st, o)
-    [] o.op = "CreateRequest" -> Out("ok", [st EXCEPT !.gen = st.gen + 1])   \* an honest node-built request for a key outside the pool, authorised at once
+    [] o.op = "CreateRequest" -> IF o.flow = "wrap" THEN Out("ok", st) ELSE Out("ok", [st EXCEPT !.gen = st.gen + 1])   \* an honest node-built request for a key outside the pool, authorised at once
     [] o.op = "GenCerts"    -> DoGenCerts(st, o)
     [] o.op = "Rotate"      -> LET r == DoRotate(st, o) IN Out(r.res, r.st)
 
